@@ -64,7 +64,7 @@ func vStoredKey(shape int, withPool bool) string {
 	case 2, 4:
 		pod.OwnerReferences = []metav1.OwnerReference{{Kind: "ReplicaSet", Name: nondetString("dns1123subdomain")}}
 	case 3:
-		pod.OwnerReferences = []metav1.OwnerReference{{Kind: nondetPick("TApp", "CloneSet", "Job"), Name: nondetString("dns1123subdomain")}}
+		pod.OwnerReferences = []metav1.OwnerReference{{Kind: nondetPick("TApp", "CloneSet", "Job", "Compass", "Redis"), Name: nondetString("dns1123subdomain")}}
 	}
 	k, err := util.FormatKey(pod)
 	verifAssume(err == nil)
@@ -79,7 +79,7 @@ func vStoredKey(shape int, withPool bool) string {
 }
 
 // SOLVER: cvc5
-// BOUND: one allocated entry whose stored key is built by the real FormatKey from a pod with symbolic namespace/name/owner name/pool (DNS alphabets, unbounded) for 6 key shapes (bare, statefulset, deployment, 3 other kinds, app reserve, pool reserve) x pool yes/no; the entry is listed (real convert) and posted back as is, or with appType omitted when it reads "statefulset"
+// BOUND: one allocated entry whose stored key is built by the real FormatKey from a pod with symbolic namespace/name/owner name/pool (DNS alphabets, unbounded) for 6 key shapes (bare, statefulset, deployment, 5 other kinds incl. kinds ending in s / ss, former 3 other kinds, app reserve, pool reserve) x pool yes/no; the entry is listed (real convert) and posted back as is, or with appType omitted when it reads "statefulset"
 // ASSUME: C11: the listed pod no longer exists (the entry is releasable)
 func VerifC11_q_listThenRelease() {
 	shape := nondetChoice(6)
